@@ -28,7 +28,7 @@ func symSignersOf(l []any) []symSigner {
 	var out []symSigner
 	for _, x := range l {
 		m := x.(M)
-		out = append(out, symSigner{Sid: str(m, "sid"), SigKey: str(m, "sigKey"), SigOver: str(m, "sigOver"), Attrs: str(m, "attrs"), CT: str(m, "ctattr"), MD: str(m, "md"), Order: str(m, "order")})
+		out = append(out, symSigner{Sid: str(m, "sid"), SigKey: str(m, "sigKey"), SigOver: str(m, "sigOver"), Attrs: str(m, "attrs"), CT: str(m, "ctattr"), MD: str(m, "md"), Order: str(m, "order"), Alg: str(m, "alg"), Unauth: str(m, "unauth")})
 	}
 	return out
 }
